@@ -107,9 +107,75 @@ def null_docs(r, n: int):
         yield {"openapi": "3.0.3", "info": {"title": "N", "version": "1"}, "paths": {}, "components": {"schemas": schemas}}, r.choice([None, 3, 10])
 
 
+def deep_chain_cases(r, n: int):
+    """Chains S0 -> S1 -> ... far deeper than the depth limit; every level carries decorations declared BEFORE the downward
+    reference (arrays of inline objects, self references, maps, inline objects, compositions) - the shapes that make
+    `_parse_schema` return early or parse a node twice on the way down."""
+    R = lambda n: {"r": n}                                  # noqa: E731
+    prim = {"p": "string", "e": False}
+    for i in range(n):
+        length = r.choice([25, 60, 140, 400])
+        md = r.choice([3, 10, 10])
+        decls = []
+        for k in range(length):
+            me, nxt = f"S{k}", f"S{k + 1}"
+            props = []
+            for _ in range(r.randint(0, 2)):
+                c = r.random()
+                pn = f"d{len(props)}"
+                if c < 0.3:
+                    props.append([pn, {"i": {"o": [["v", prim]], "q": [], "a": None}}])       # array of inline objects
+                elif c < 0.45:
+                    props.append([pn, R(me)])                                                    # self reference
+                elif c < 0.6:
+                    props.append([pn, {"i": R(me)}])                                             # self reference through an array
+                elif c < 0.7:
+                    props.append([pn, {"o": None, "q": [], "a": prim}])                          # map
+                elif c < 0.85:
+                    props.append([pn, {"o": [["w", prim]], "q": [], "a": None}])                 # inline object
+                else:
+                    props.append([pn, prim])
+            if k + 1 < length:
+                props.append(["next", R(nxt) if r.random() < 0.7 else {"i": R(nxt)}])
+            if r.random() < 0.3:
+                r.shuffle(props)
+            decls.append([me, {"o": props, "q": [], "a": None}])
+        yield {"max_depth": md, "decls": decls}
+
+
+def chain_failures(case: dict) -> list[str]:
+    from ..corr import parser as P
+    res = P.py_parse(case["max_depth"], P.ORACLE_FUEL, case["decls"])
+    bad = []
+    if res["raises"] == "RecursionError":
+        return [f"more than {P.ORACLE_FUEL} nested _parse_schema calls (the interpreter stack is exhausted) although PYOPENAPI_MAX_DEPTH={case['max_depth']}"]
+    if res["raises"]:
+        bad.append(f"load raised {res['raises']}")
+    # measured on the unchanged tree: anonymous nodes below the last named frame add at most 2 nested calls per inline level
+    if res["maxNest"] > case["max_depth"] + 8:
+        bad.append(f"{res['maxNest']} nested _parse_schema calls open at once with PYOPENAPI_MAX_DEPTH={case['max_depth']}: recursion is not cut at the depth limit")
+    if not res["rest"] or res.get("_rest_violations"):
+        bad.append("tracker not at rest after a top-level schema")
+    if res.get("_neg"):
+        bad.append("recursion_depth < 0")
+    if any(v == "in_progress" for k, v in res["states"] if k):
+        bad.append("a schema is left IN_PROGRESS")
+    return bad
+
+
 def check(run, ctx) -> None:
     known = findings.Known(run, PROP)
     _parser.run(run, ctx, PROP, known)
+    rc = rng("C08:chains")
+    nchain = ctx.budget(24, 200)
+    for case in deep_chain_cases(rc, nchain):
+        run.count({"chain": len(case["decls"]), "md": case["max_depth"], "h": hash(json.dumps(case["decls"]))}, nontrivial=True)
+        run.dist("chain_length", str(len(case["decls"])))
+        fails = chain_failures(case)
+        if fails and len(run.violations) < 5:
+            run.violation("input", {"chain_case": case}, observed=fails, expected="recursion cut by placeholders at the depth limit; tracker at rest",
+                          what=f"chain of {len(case['decls'])} schemas (PYOPENAPI_MAX_DEPTH={case['max_depth']}): " + "; ".join(fails)[:300])
+    run.cov.setdefault("oracle_evaluations", {})["deep-chain monitor on the real parser"] = nchain
     r = rng("C08:null")
     n = ctx.budget(150, 1500)
     nbad = 0
@@ -121,7 +187,7 @@ def check(run, ctx) -> None:
             run.violation("input", {"null_doc": doc, "max_depth": md}, observed=fails, expected="tracker at rest (depth 0, empty stack, nothing IN_PROGRESS), every declared name present",
                           what=f"documents with null / empty schema nodes (PYOPENAPI_MAX_DEPTH={md}): " + "; ".join(fails)[:300])
     run.cov.setdefault("oracle_evaluations", {})["null-node monitor on the real tracker"] = n
-    run.cov["rule"] = (run.cov.get("rule") or "") + " [null-node monitor] random documents whose property / items / allOf nodes are null or empty, depth limits {default,3,10}; rest state checked on the real ParsingContext"
+    run.cov["rule"] = (run.cov.get("rule") or "") + " [deep-chain monitor] chains of 25/60/140/400 named schemas with early-return decorations before the downward reference, depth limits {3,10}: number of _parse_schema calls open at once (counted by a wrapper, independent of the tracker's own counter) <= limit + 8, no RecursionError, rest state [null-node monitor] random documents whose property / items / allOf nodes are null or empty, depth limits {default,3,10}; rest state checked on the real ParsingContext"
     known.report_unreplayed()
 
 
@@ -133,4 +199,6 @@ def replay(run, ctx, rec) -> bool:
     case = rec.get("case") or {}
     if "null_doc" in case:
         return bool(monitor_doc(case["null_doc"], case.get("max_depth")))
+    if "chain_case" in case:
+        return bool(chain_failures(case["chain_case"]))
     return g.replay_generic(rec)
